@@ -419,7 +419,8 @@ func (s *HTTPService) ServeHTTP(w http.ResponseWriter, r *http.Request) {
 		return
 	}
 
-	switch DWIMURI(ctx, m["uri"].(string)) { // Sorry.
+	uri, _ := m["uri"].(string)
+	switch DWIMURI(ctx, uri) { // Sorry.
 	case "/api/sys/admin/connstates":
 		counts := s.connStates.Get()
 		js, err := json.Marshal(&counts)
